@@ -291,10 +291,10 @@ func (s *Stack[T]) Head() *Item[T] { s.lazyInit(); return s.head }
 // the stack is empty, this will return, but not detach, the root item
 // of the stack, which will report a false Ok() value.
 func (s *Stack[T]) Pop() *Item[T] {
-	if s.head == nil {
-		s.head = &Item[T]{}
-		return s.head
-	}
+	// a stack that has not been used yet gets its sentinel here (an
+	// item that is not owned by the stack would refuse every later
+	// Push.)
+	s.lazyInit()
 	if s.length == 0 {
 		return s.head
 	}
